@@ -537,12 +537,15 @@ func c12Peer(c *vf.Case) {
 		g := groups[r.Intn(len(groups))]
 		st := model[g]
 		src := srcIP
-		if r.Chance(1, 3) {
-			src = other
+		if r.Chance(1, 2) {
+			src = []string{other, "10.9.9.8", "198.51.100.7"}[r.Intn(3)]
 		}
 		var err error
 		op := ""
 		pick := r.Intn(8)
+		if st.mode == 2 && r.Chance(1, 2) {
+			pick = []int{2, 4}[r.Intn(2)] // keep working on source lists once a group is source-specific
+		}
 		// Linux switches the filter mode of a membership with an empty source list as a side effect of a
 		// source-specific call, even when that call then fails (ip_mc_source: "allow mode switches for empty-set
 		// filters"). That is kernel behaviour, not the library's: such mixed calls are not generated.
@@ -775,7 +778,7 @@ func init() {
 			"the membership model only changes when the call returned nil (kernel refusals such as mixing any-source and source-specific joins leave it unchanged)",
 		},
 		RequireCounters: []string{"datagrams_verified", "getter_kernel_comparisons"},
-		NumCases:        func(tier, build string) int { return vf.Tiered(tier, 240, 8000) },
+		NumCases:        func(tier, build string) int { return vf.Tiered(tier, 240, 150000) },
 		Floor:           func(tier string) int { return vf.Tiered(tier, 50, 500) },
 		Run:             runC12,
 	})
